@@ -98,5 +98,66 @@ theorem bparse_par (hparse : ∀ str v, F.parse str = .ok v → V v) {R : BPoly.
 
 end ParseB
 end B
+
+section StepBStr
+variable {α : Type} {env env' : Env α} {V : Nat → α → Prop} (h : EnvAgreeB env env' V)
+include h
+
+theorem step_bStr_agree (desc : FieldDesc) {s : St α} (hs : StoreOKB V s) (dst ring : Nat)
+    (arg : String) :
+    step env' desc s (.bCtor dst ring "str" arg) = step env desc s (.bCtor dst ring "str" arg) ∧
+      StoreOKB V (step env desc s (.bCtor dst ring "str" arg)).1 := by
+  have A := h.u.base.agree 0
+  have C := h.u.base.closed 0
+  have hR := h.bringOK ring
+  have hb' : bring env' ring = B.withFB (bring env ring) (env'.fld 0) := h.bring' ring
+  simp only [step, stepE, stepU, stepB, String.reduceBEq, Bool.false_eq_true, if_false, if_true]
+  rw [hb']
+  obtain ⟨e, hv⟩ := B.bparse_par A C (h.u.parse 0) (R := bring env ring) hR (unhex arg)
+  rw [e]
+  cases hp : BPoly.parse (bring env ring) (unhex arg) with
+  | error k => exact ⟨rfl, hs.setB dst _ B.nil_V⟩
+  | ok o =>
+    cases o with
+    | none =>
+      exact putB h hs dst (r := { home := ring, val := [], err := .kind .internal }) rfl B.nil_V _
+    | some v => exact putB h hs dst (r := { home := ring, val := v }) rfl (hv _ hp v rfl) _
+
+omit h in
+/-- ALL bivariate polynomial operations except the raw decoder `bCtor … "map"` -/
+def bOpAll : Op → Bool
+  | .bCtor _ _ how _ => how != "map"
+  | op => bOp op
+
+omit h in
+theorem bCtor_how_cases (dst ring : Nat) (how arg : String) (hne : how ≠ "map") :
+    bOp (.bCtor dst ring how arg) = true ∨ how = "str" ∨
+      (∀ (env : Env α) (s : St α), stepB env s (.bCtor dst ring how arg) = none) := by
+  by_cases h1 : bOp (.bCtor dst ring how arg) = true
+  · exact Or.inl h1
+  · by_cases h2 : how = "str"
+    · exact Or.inr (Or.inl h2)
+    · refine Or.inr (Or.inr fun env s => ?_)
+      simp only [bOp, Bool.or_eq_true, beq_iff_eq, not_or] at h1
+      obtain ⟨⟨⟨⟨a1, a2⟩, a3⟩, a4⟩, a5⟩ := h1
+      simp only [stepB, beq_iff_eq, hne, a1, a2, a3, a4, a5, h2, if_false]
+
+theorem step_bOpAll_agree (desc : FieldDesc) {s : St α} (hs : StoreOKB V s) (op : Op)
+    (hop : bOpAll op = true) :
+    step env' desc s op = step env desc s op ∧ StoreOKB V (step env desc s op).1 := by
+  cases op
+  case bCtor dst ring how arg =>
+    simp only [bOpAll, bne_iff_ne, ne_eq] at hop
+    rcases bCtor_how_cases (α := α) dst ring how arg hop with h1 | rfl | h3
+    · exact step_bOp_agree h desc hs _ h1
+    · exact step_bStr_agree h desc hs dst ring arg
+    · have e : ∀ env : Env α, step env desc s (.bCtor dst ring how arg) = (s, "bad-op") := by
+        intro env
+        simp only [step, stepE, stepU, h3, stepT]
+      rw [e, e]
+      exact ⟨rfl, hs⟩
+  all_goals exact step_bOp_agree h desc hs _ hop
+
+end StepBStr
 end Tables
 end Algobra
